@@ -1,9 +1,228 @@
-import Oracle.Proto
-namespace Oracle.C09
+/-
+  Oracle.C09 — what Spec.Co prescribes for the coroutine scripts of harness/cmd/c09.
 
-/-- placeholder: the oracle driver for C09 is not built yet -/
-def main (_args : List String) : IO UInt32 := do
-  IO.eprintln "oracle mode c09: not built"
-  return 2
+  Modes:
+    (stdin lines `<script tokens> => …`)   → one line per script in the harness's format
+         `<events> | F <final statuses> | G <d1> <d2> | <outcome> | X <killed coroutines>`
+         computed by interpreting the script on `Spec.Co.step` (the definitions Props.C09 is about)
+    `oracle c09 disc`                        → the violations of the discipline `Disc` in the event
+         table regenerated from thread.go (`Model.CoProto.discViolations Generated.table`), one per line
+-/
+import Oracle.Proto
+import GoluaVerif.Spec.Co
+import GoluaVerif.Model.CoProto
+import GoluaVerif.Generated.ThreadEvents
+namespace Oracle.C09
+open GoluaVerif.Spec.Co
+
+inductive Kind | none | create | wrap
+  deriving DecidableEq, Inhabited
+
+/-- what a suspended coroutine does first when it is resumed -/
+inductive Pend | fresh | yielded | pyielded | exhausted
+  deriving DecidableEq, Inhabited
+
+structure CoInfo where
+  kind : Kind := .none
+  mode : Nat := 0
+  started : Bool := false
+  pend : Pend := .fresh
+  waitK : Nat := 0          -- the coroutine this thread is resuming …
+  waitWrap : Bool := false  -- … through a wrap function?
+  deriving Inhabited
+
+structure ScriptSt where
+  sp : State := init
+  info : Nat → CoInfo := fun _ => {}
+  events : List String := []     -- reversed
+  killed : List Nat := []
+  outcome : String := ""
+  bad : Bool := false
+
+inductive Action
+  | create (k mode : Nat) (wrap : Bool)
+  | resume (k : Nat) (vs : List Val)
+  | yield (vs : List Val) | pyield (vs : List Val)
+  | ret (vs : List Val) | err (v : Val) | perr (v : Val)
+  | close (k : Nat) | status (k : Nat) | isYieldable | spin
+  deriving Inhabited
+
+def showVals (vs : List Val) : String := String.join (vs.map (fun v => " " ++ toString v))
+def showOpt : Option Val → String
+  | none => "n"
+  | some v => toString v
+
+def ScriptSt.emit (s : ScriptSt) (e : String) : ScriptSt := { s with events := e :: s.events }
+def ScriptSt.setInfo (s : ScriptSt) (k : Nat) (f : CoInfo → CoInfo) : ScriptSt :=
+  { s with info := upd s.info k (f (s.info k)) }
+
+def statusName : Status → String
+  | .suspended => "suspended" | .running => "running" | .normal => "normal" | .dead => "dead"
+
+/-- turn the spec's events into trace events (and bookkeeping) -/
+def handleEvents (s : ScriptSt) (evs : List Event) (me : Nat) (closing : Option Nat) : ScriptSt :=
+  evs.foldl (fun s e =>
+    match e with
+    | .tbc t err =>
+      let s := s.emit s!"T {t} {showOpt err}"
+      if (s.info t).mode == 2 then s.emit s!"H {t} t 1" else s
+    | .deliver to m =>
+      let tag := if (s.info to).waitWrap then "W" else "R"
+      let k := (s.info to).waitK
+      match m with
+      | .args vs =>
+        match (s.info to).pend with
+        | .fresh =>
+          let s := s.setInfo to (fun i => { i with started := true })
+          let s := if (s.info to).mode > 0 then { s with sp := (step s.sp .mark).1 } else s
+          s.emit s!"B {to}{showVals vs}"
+        | .yielded => s.emit s!"Y {to}{showVals vs}"
+        | .pyielded => s.emit s!"P {to} t{showVals vs}"
+        | .exhausted => s
+      | .ok vs => s.emit s!"{tag} {k} t{showVals vs}"
+      | .fail v => s.emit s!"{tag} {k} F {v}"
+      | .exc => s
+      | .illegal =>
+        match closing with
+        | some c => s.emit s!"C {c} illegal"
+        | none => s.emit s!"{tag} {k} illegal"
+      | .closed none => s.emit s!"C {closing.getD 0} ok"
+      | .closed (some v) => s.emit s!"C {closing.getD 0} fail {v}") s
+  |> fun s => let _ := me; s
+
+def doStep (s : ScriptSt) (op : Op) (closing : Option Nat := none) : ScriptSt :=
+  let me := s.sp.cur
+  let (sp', evs) := step s.sp op
+  handleEvents { s with sp := sp' } evs me closing
+
+/-- unwind the whole resume chain (quota kill in the running coroutine) -/
+def killChain : Nat → ScriptSt → ScriptSt
+  | 0, s => s
+  | fuel + 1, s =>
+    let me := s.sp.cur
+    if me == 0 then s else
+      let (sp', _) := step s.sp .exc
+      killChain fuel { s with sp := sp', killed := me :: s.killed }
+
+def exec (s : ScriptSt) (a : Action) : ScriptSt :=
+  if s.bad || s.outcome != "" then s else
+  let me := s.sp.cur
+  match a with
+  | .create k mode wrap =>
+    if k != s.sp.n || k == 0 || k > 3 then { s with bad := true } else
+    let s := doStep s .create
+    s.setInfo k (fun _ => { kind := if wrap then .wrap else .create, mode := mode })
+  | .resume k vs =>
+    if (s.info k).kind == .none then { s with bad := true } else
+    let s := s.setInfo me (fun i => { i with waitK := k, waitWrap := (s.info k).kind == .wrap })
+    doStep s (.resume k vs)
+  | .yield vs =>
+    if me == 0 then s.emit "Y 0 illegal" else
+    doStep (s.setInfo me (fun i => { i with pend := .yielded })) (.yield vs)
+  | .pyield vs =>
+    if me == 0 then s.emit "P 0 illegal" else
+    doStep (s.setInfo me (fun i => { i with pend := .pyielded })) (.yield vs)
+  | .ret vs => if me == 0 then s else doStep s (.ret vs)
+  | .err v => if me == 0 then s else doStep s (.err v)
+  | .perr v => s.emit s!"PE {me} F {v}"
+  | .close k =>
+    if (s.info k).kind == .none then { s with bad := true } else
+    if (s.info k).kind == .wrap && !(s.info k).started then s.emit s!"C {k} nohandle" else
+    doStep s (.close k) (some k)
+  | .status k =>
+    if (s.info k).kind == .none then { s with bad := true } else
+    if (s.info k).kind == .wrap && !(s.info k).started then s.emit s!"S {k} nohandle" else
+    s.emit s!"S {k} {statusName (s.sp.status k)}"
+  | .isYieldable => s.emit s!"I {me} {if s.sp.isYieldable then "t" else "F"}"
+  | .spin => { killChain 8 s with outcome := "killed" }
+
+/-- when the script is exhausted every coroutine on the resume chain yields (no values) -/
+def unwind : Nat → ScriptSt → ScriptSt
+  | 0, s => s
+  | fuel + 1, s =>
+    let me := s.sp.cur
+    if me == 0 || s.outcome != "" || s.bad then s else
+      unwind fuel (doStep (s.setInfo me (fun i => { i with pend := .exhausted })) (.yield []))
+
+def finalStatus (s : ScriptSt) (k : Nat) : String :=
+  match (s.info k).kind with
+  | .none => "none"
+  | .wrap => if !(s.info k).started then "nohandle" else statusName (s.sp.status k)
+  | .create => statusName (s.sp.status k)
+
+def runScript (acts : List Action) : String :=
+  let s := acts.foldl exec {}
+  let s := unwind 8 s
+  if s.bad then "bad-script" else
+  let s := if s.outcome == "" then { s with outcome := "done" } else s
+  let finals := [1, 2, 3].map (finalStatus s)
+  let d1 := (finals.filter (fun f => f == "suspended" || f == "nohandle")).length
+  let ev := " ; ".intercalate s.events.reverse
+  let killed := String.join (s.killed.reverse.map (fun k => " " ++ toString k))
+  s!"{ev} | F {" ".intercalate finals} | G {d1} 0 | {s.outcome} | X{killed}"
+
+def parseVals (s : String) : Option (List Val) :=
+  if s.isEmpty then some [] else
+  (s.splitOn ",").mapM (fun x => x.toInt?)
+
+def parseAction (tok : String) : Option Action :=
+  let (head, vs?) := match tok.splitOn ":" with
+    | [h] => (h, some [])
+    | [h, v] => (h, parseVals v)
+    | _ => (tok, none)
+  match vs? with
+  | none => none
+  | some vs =>
+    if head == "y" then some (.yield vs)
+    else if head == "py" then some (.pyield vs)
+    else if head == "ret" then some (.ret vs)
+    else if head == "e" then vs.head?.map .err
+    else if head == "pe" then vs.head?.map .perr
+    else if head == "iy" then some .isYieldable
+    else if head == "spin" then some .spin
+    else
+      let cs := head.toList
+      match cs with
+      | c :: d :: rest =>
+        let k := d.toNat - '0'.toNat
+        if k < 1 || k > 3 then none else
+        let mode? : Option Nat := match rest with
+          | [] => some 0
+          | ['t'] => some 1
+          | ['T'] => some 2
+          | _ => none
+        match c, mode? with
+        | 'c', some m => some (.create k m false)
+        | 'w', some m => some (.create k m true)
+        | 'r', some 0 => some (.resume k vs)
+        | 'x', some 0 => some (.close k)
+        | 's', some 0 => some (.status k)
+        | _, _ => none
+      | _ => none
+
+def processLine (line : String) : String :=
+  let script := (line.splitOn "=>").headD ""
+  let toks := (script.splitOn " ").filter (fun t => !t.isEmpty)
+  match toks.mapM parseAction with
+  | none => "bad-line"
+  | some acts => runScript acts
+
+def showViolation (v : GoluaVerif.Model.CoProto.Violation) : String :=
+  s!"disc:{v.proc}:{v.ev}:{v.reason} path={v.path} idx={v.idx}"
+
+def main (args : List String) : IO UInt32 := do
+  match args with
+  | ["disc"] =>
+    for v in GoluaVerif.Model.CoProto.discViolations GoluaVerif.Generated.ThreadEvents.table do
+      IO.println (showViolation v)
+    for p in GoluaVerif.Generated.ThreadEvents.problems do
+      IO.println s!"unclassified:{p}"
+    return 0
+  | _ =>
+    let stdin ← IO.getStdin
+    let stdout ← IO.getStdout
+    Oracle.forEachLine stdin fun line => do
+      stdout.putStrLn (processLine line)
+    return 0
 
 end Oracle.C09
